@@ -225,6 +225,9 @@ pub struct ChMux<TransportSink, TransportStream> {
     transport_stream: Option<TransportStream>,
     /// Storage.
     storage: AnyStorage,
+    /// Verification endpoint id.
+    #[cfg(remoc_verif)]
+    verif_id: u64,
 }
 
 impl<TransportSink, TransportStream> fmt::Debug for ChMux<TransportSink, TransportStream> {
@@ -296,7 +299,11 @@ where
             transport_sink: Some(transport_sink),
             transport_stream: Some(transport_stream),
             storage: AnyStorage::new(),
+            #[cfg(remoc_verif)]
+            verif_id: crate::verif::next_id(),
         };
+        #[cfg(remoc_verif)]
+        crate::verif::emit("mux_new", &[("ep", multiplexer.verif_id), ("chunk", multiplexer.local_cfg.chunk_size as u64), ("rbuf", multiplexer.local_cfg.receive_buffer as u64), ("r_chunk", multiplexer.remote_cfg.chunk_size as u64), ("r_rbuf", multiplexer.remote_cfg.port_receive_buffer as u64)]);
 
         let client = Client::new(
             connect_tx,
@@ -436,6 +443,8 @@ where
         let (receiver_credit_monitor, receiver_credit_returner) =
             credit_monitor_pair(self.local_cfg.receive_buffer);
 
+        #[cfg(remoc_verif)]
+        crate::verif::emit("port_create", &[("ep", self.verif_id), ("local", local_port_num as u64), ("remote", remote_port as u64), ("pool_key", sender_credit_provider.verif_key()), ("mon_key", receiver_credit_monitor.verif_key())]);
         let hangup_notify = Arc::new(std::sync::Mutex::new(Some(Vec::new())));
         let hangup_recved = Arc::new(AtomicBool::new(false));
 
@@ -517,6 +526,8 @@ where
         }
 
         if free {
+            #[cfg(remoc_verif)]
+            crate::verif::emit("port_free", &[("ep", self.verif_id), ("local", local_port as u64)]);
             tracing::trace!(local_port, "freed port");
             self.ports.remove(&local_port);
         }
@@ -726,6 +737,8 @@ where
             permit.send(TransportMsg::new(msg))
         };
 
+        #[cfg(remoc_verif)]
+        self.verif_event(&event);
         match event {
             // Process local connect request.
             GlobalEvt::ConnectReq(ConnectRequest { local_port, id, sent_tx: _sent_tx, response_tx, wait }) => {
@@ -872,6 +885,8 @@ where
         &mut self, received_msg: TransportMsg,
     ) -> Result<(), ChMuxError<TransportSinkError, TransportStreamError>> {
         let TransportMsg { msg, data } = received_msg;
+        #[cfg(remoc_verif)]
+        self.verif_recv(&msg, data.as_ref().map(|d| d.len()));
 
         match msg {
             // Connection reset by remote endpoint.
@@ -1166,6 +1181,45 @@ where
         }
 
         Ok(())
+    }
+}
+
+#[cfg(remoc_verif)]
+impl<TransportSink, TransportStream> ChMux<TransportSink, TransportStream> {
+    fn verif_event(&self, event: &GlobalEvt) {
+        use crate::verif::emit;
+        let ep = ("ep", self.verif_id);
+        match event {
+            GlobalEvt::ConnectReq(req) => emit("mux_evt_connect", &[ep, ("local", *req.local_port as u64), ("wait", req.wait as u64)]),
+            GlobalEvt::AllClientsDropped => emit("mux_evt_clients_dropped", &[ep]),
+            GlobalEvt::ListenerDropped => emit("mux_evt_listener_dropped", &[ep]),
+            GlobalEvt::SendGoodbye => emit("mux_evt_goodbye", &[ep]),
+            GlobalEvt::Port(PortEvt::Accepted { local_port, remote_port, .. }) => emit("mux_evt_accepted", &[ep, ("local", **local_port as u64), ("remote", *remote_port as u64)]),
+            GlobalEvt::Port(PortEvt::Rejected { remote_port, no_ports }) => emit("mux_evt_rejected", &[ep, ("remote", *remote_port as u64), ("no_ports", *no_ports as u64)]),
+            GlobalEvt::Port(PortEvt::SendData { remote_port, data, first, last }) => emit("mux_evt_data", &[ep, ("remote", *remote_port as u64), ("len", data.len() as u64), ("first", *first as u64), ("last", *last as u64)]),
+            GlobalEvt::Port(PortEvt::SendPorts { remote_port, ports, first, last, wait }) => emit("mux_evt_ports", &[ep, ("remote", *remote_port as u64), ("n", ports.len() as u64), ("first", *first as u64), ("last", *last as u64), ("wait", *wait as u64)]),
+            GlobalEvt::Port(PortEvt::ReturnCredits { remote_port, credits }) => emit("mux_evt_credits", &[ep, ("remote", *remote_port as u64), ("credits", *credits as u64)]),
+            GlobalEvt::Port(PortEvt::SenderDropped { local_port }) => emit("mux_evt_sender_dropped", &[ep, ("local", *local_port as u64)]),
+            GlobalEvt::Port(PortEvt::ReceiverClosed { local_port }) => emit("mux_evt_receiver_closed", &[ep, ("local", *local_port as u64)]),
+            GlobalEvt::Port(PortEvt::ReceiverDropped { local_port }) => emit("mux_evt_receiver_dropped", &[ep, ("local", *local_port as u64)]),
+        }
+    }
+
+    fn verif_recv(&self, msg: &MultiplexMsg, data_len: Option<usize>) {
+        use crate::verif::emit;
+        let ep = ("ep", self.verif_id);
+        match msg {
+            MultiplexMsg::Data { port, first, last } => emit("mux_rx_data", &[ep, ("local", *port as u64), ("len", data_len.unwrap_or(0) as u64), ("first", *first as u64), ("last", *last as u64)]),
+            MultiplexMsg::PortData { port, first, last, ports, .. } => emit("mux_rx_ports", &[ep, ("local", *port as u64), ("n", ports.len() as u64), ("first", *first as u64), ("last", *last as u64)]),
+            MultiplexMsg::PortCredits { port, credits } => emit("mux_rx_credits", &[ep, ("local", *port as u64), ("credits", *credits as u64)]),
+            MultiplexMsg::SendFinish { port } => emit("mux_rx_send_finish", &[ep, ("local", *port as u64)]),
+            MultiplexMsg::ReceiveClose { port } => emit("mux_rx_receive_close", &[ep, ("local", *port as u64)]),
+            MultiplexMsg::ReceiveFinish { port } => emit("mux_rx_receive_finish", &[ep, ("local", *port as u64)]),
+            MultiplexMsg::OpenPort { client_port, .. } => emit("mux_rx_open_port", &[ep, ("remote", *client_port as u64)]),
+            MultiplexMsg::PortOpened { client_port, server_port } => emit("mux_rx_port_opened", &[ep, ("local", *client_port as u64), ("remote", *server_port as u64)]),
+            MultiplexMsg::Rejected { client_port, .. } => emit("mux_rx_rejected", &[ep, ("local", *client_port as u64)]),
+            _ => emit("mux_rx_other", &[ep]),
+        }
     }
 }
 
